@@ -122,6 +122,13 @@ UNITS.append(flow.Unit('riemann-igeos-fans', groups=['riemann'], props=['props/C
                        note='rarefaction fans of the ideal-gas Riemann solver (left and right), any gamma'))
 
 
+import ehep_corr as EC
+UNITS.append(flow.Unit('ehep', groups=['ehep'], props=['props/C01_ehep.v'], custom_corr=EC.unit_corr, oracle=EC.oracle,
+                       note='escape of HE products: region formulas I-V regenerated from _run; Euler equations in every region (II: where its clamped sound speed is '
+                            'positive), continuity across the separating characteristics; the point-in-polygon region lookup is outside the theorems (the '
+                            'correspondence reads the region label the real solver returns)'))
+
+
 def run(report, tier, rng):
     report.assumptions += [
         'real-number semantics of the generated model (IEEE rounding not modelled; measured by the correspondence goals)',
